@@ -237,6 +237,13 @@ def hexPairs : List Char → Option Bytes
 def hexToBytes (s : String) : Option Bytes :=
   hexPairs (s.toList.filter (fun c => !(c == ' ' || c == '\t' || c == '\n')))
 
+/-- `sub in s` for strings. -/
+def hasSubList (sub : List Char) : List Char → Bool
+  | [] => sub.isEmpty
+  | c :: t => sub.isPrefixOf (c :: t) || hasSubList sub t
+
+def hasSub (s sub : String) : Bool := hasSubList sub.toList s.toList
+
 /-- `StringDataEncoding.__init__` validation (the constructor arguments are the fields of `StrEnc` plus the raw
     termination-character hex string). -/
 def mkStrEnc (encoding : String) (byteOrder : Option String) (fixed : Option Int) (dyn : Option String)
@@ -248,8 +255,8 @@ def mkStrEnc (encoding : String) (byteOrder : Option String) (fixed : Option Int
     if !(singleByteEncodings.contains encoding) then
       match byteOrder with
       | none =>
-        if (encoding.splitOn "LE").length > 1 then pure (some "leastSignificantByteFirst")
-        else if (encoding.splitOn "BE").length > 1 then pure (some "mostSignificantByteFirst")
+        if hasSub encoding "LE" then pure (some "leastSignificantByteFirst")
+        else if hasSub encoding "BE" then pure (some "mostSignificantByteFirst")
         else throw Err.value
       | some b => if !(b == "leastSignificantByteFirst" || b == "mostSignificantByteFirst")
                   then throw Err.value else pure (some b)
